@@ -11,7 +11,7 @@ rc=0
 for f in benign/${1:-}*.diff; do
   n=$(basename $f .diff)
   checks=$all; [ -f benign/$n.checks ] && [ "${BENIGN_ALL:-0}" != 1 ] && checks=$(cat benign/$n.checks)
-  out=$(MT_TARGET=/tmp/mt/target-bn BASELINE=1 tools/mutant.sh bn_$n $f $checks 2>&1 | grep -v "WARNING conda")
+  out=$(MT_TARGET=${BN_TARGET:-/tmp/mt/target-bn} BASELINE=1 tools/mutant.sh bn_$n $f $checks 2>&1 | grep -v "WARNING conda")
   echo "$out" | grep -E "baseline|BUILD-FAILS|PATCH-DOES-NOT-APPLY"
   for c in $checks; do
     l=$(echo "$out" | grep "^bn_$n $c exit=" | head -1)
